@@ -7,7 +7,7 @@ import "fmt"
 
 var allPopKinds = []string{"tampered", "unsigned", "foreign", "other-step-key", "earlier-step-key", "earlier-step-key", "forged-keyid", "extra-sigs", "dup-infix", "keyid-variant", "keyid-variant", "wrong-name-len", "garbage", "bad-sig-encoding", "corrupt-sig", "cert", "cert", "cert"}
 
-var alterKinds = []string{"mutate-field", "mutate-field", "mutate-field", "drop-sig", "reorder-sigs", "dup-sig", "corrupt-sig", "swap-keyids", "foreign-verifier", "empty-keyset", "wrong-key", "verifier-subset", "signed-by-others-only", "verifier-keytype", "verifier-scheme"}
+var alterKinds = []string{"mutate-field", "mutate-field", "mutate-field", "drop-sig", "reorder-sigs", "dup-sig", "corrupt-sig", "swap-keyids", "foreign-verifier", "empty-keyset", "wrong-key", "verifier-subset", "signed-by-others-only", "verifier-keytype", "verifier-scheme", "payload-case-dup"}
 
 func baseCfg(rng *Rng, prop string) *ChainCfg {
 	cfg := &ChainCfg{Prop: prop, LayoutDSSE: rng.Chance(40), LinkDSSE: rng.Chance(30), NSteps: 1 + rng.Intn(3), Thresholds: []int{1, 1, 1, 2},
@@ -52,12 +52,15 @@ func init() {
 			if i%5 != 0 {
 				cfg.Alter = alterKinds[rng.Intn(len(alterKinds))]
 				cfg.Prime = rng.Chance(60)
+				if cfg.Alter == "payload-case-dup" {
+					cfg.LayoutDSSE = true
+				}
 			}
 			if rng.Chance(10) {
 				cfg.Depth = 1
 			}
 			return cfg
-		}, "generated 1-3 step chains, 1-2 layout signer keys from an RSA/ECDSA/Ed25519 pool, both wrappers, both entry points, every layout carries an inspection that appends to a marker file; 4 of 5 cases apply one alteration after signing (a string anywhere in the signed layout, drop/reorder/duplicate/corrupt a signature, swap key ids, add a foreign verifier key, empty key set, wrong key, verifier subset, same key id but other key, a verifier key with an unknown key type or an unfitting scheme), in 60% of them after the authentic layout was verified in the same process; compared: verdict, summary, inspection commands that actually ran. Class = (wrapper, entry, alteration, verdict).")
+		}, "generated 1-3 step chains, 1-2 layout signer keys from an RSA/ECDSA/Ed25519 pool, both wrappers, both entry points, every layout carries an inspection that appends to a marker file; 4 of 5 cases apply one alteration after signing (a string anywhere in the signed layout, drop/reorder/duplicate/corrupt a signature, swap key ids, add a foreign verifier key, empty key set, wrong key, verifier subset, same key id but other key, a verifier key with an unknown key type or an unfitting scheme, an envelope with two payload members whose names differ in letter case), in 60% of them after the authentic layout was verified in the same process; compared: verdict, summary, inspection commands that actually ran. Class = (wrapper, entry, alteration, verdict).")
 	}
 	props["C02"] = func(r *Runner, tier string, rng *Rng) {
 		runChains(r, rng, tierN(tier, 300, 8000), func(i int) *ChainCfg {
@@ -71,10 +74,11 @@ func init() {
 			if cfg.CertSteps {
 				cfg.LinkDSSE = false
 				cfg.Repeat = true
+				cfg.CertOnlyPct = 20
 			}
 			cfg.NSteps = 1 + rng.Intn(3)
 			return cfg
-		}, "per step: threshold 0-3, 1-3 authorized keys, `threshold` honest links (one too few in a quarter of the steps) plus 0-3 extra files drawn from: tampered, unsigned, foreign key, key of another step, key of an EARLIER step of the same layout (listed and defined there), forged key id, extra signatures, duplicate under another infix, an already counted functionary again under a letter-case variant of its key id, wrong name length, garbage, undecodable signature, corrupted signature, certificate-signed (good / expired / foreign-root / missing-intermediate chains, forged first key id); both wrappers; compared: verdict and summary. Class = (population kinds, verdict).")
+		}, "per step: threshold 0-3, 1-3 authorized keys, `threshold` honest links (one too few in a quarter of the steps) plus 0-3 extra files drawn from: tampered, unsigned, foreign key, key of another step, key of an EARLIER step of the same layout (listed and defined there), forged key id, extra signatures, duplicate under another infix, an already counted functionary again under a letter-case variant of its key id, wrong name length, garbage, undecodable signature, corrupted signature, certificate-signed (good / expired / foreign-root / missing-intermediate chains, forged first key id), steps authorized by ONE certificate constraint alone with threshold 2-3 and that many (or one fewer) distinct certificate holders; both wrappers; compared: verdict and summary. Class = (population kinds, verdict).")
 	}
 	props["C05"] = func(r *Runner, tier string, rng *Rng) {
 		runChains(r, rng, tierN(tier, 250, 6000), func(i int) *ChainCfg {
@@ -103,6 +107,7 @@ func init() {
 			cfg.SurplusPct = 40
 			cfg.ShortPct = 20
 			cfg.SubExpiredPct = 15
+			cfg.SubFlattenPct = 12
 			cfg.EmptyLastPct = 30
 			cfg.EmptyLastSub = true
 			if rng.Chance(40) {
@@ -111,7 +116,7 @@ func init() {
 			}
 			cfg.Differ = rng.Chance(15)
 			return cfg
-		}, "two- and three-level nestings: the evidence of one functionary per step may be a sublayout with its own link directory; defects (tampered/foreign/forged/garbage/corrupt links, one link too few, disagreeing links, rule violations) land at any level (incl. an expired or undated sublayout under a valid root, a sublayout whose last step reports no products), also in a sublayout of a step that has more honest evidence than its threshold requires; parent rules strict or lenient; compared: verdict and summary. Class = (depth features, verdict).")
+		}, "two- and three-level nestings: the evidence of one functionary per step may be a sublayout with its own link directory; defects (tampered/foreign/forged/garbage/corrupt links, one link too few, disagreeing links, rule violations) land at any level (incl. an expired or undated sublayout under a valid root, a sublayout whose last step reports no products, a sublayout whose directory is missing while its links lie in the parent's directory), also in a sublayout of a step that has more honest evidence than its threshold requires; parent rules strict or lenient; compared: verdict and summary. Class = (depth features, verdict).")
 	}
 	props["C09"] = func(r *Runner, tier string, rng *Rng) {
 		kinds := []string{"noop", "create", "modify", "delete", "exit", "create-exit", "signal", "missing", "empty", "noop", "create", "noop"}
